@@ -54,6 +54,9 @@ SPECIAL = [
     'c1ccc2c1CCCc1cccc1-2', 'c1ccc-2c1OCc1cccc12', 'c1cccc1-c1cccc1', 'c1ccc2c1CCc1cccc1=2', 'c1ccc=2c1CCc1cccc12',
     'c1ccc2c1CCc1cccc12', 'c1ccc2c1CCc1cccc1:2', 'c1cc2cccc2c1', 'c1cc-2cccc-2c1', 'c1cc2cccc-2c1', 'c1cc-2cccc2c1',
     'c1ccccc1-1', 'c1cc-1', 'c1ccc-1', 'c-1ccc1', 'c1ccccc-1', 'c-1ccccc1', 'c1ccccc=1', 'c=1ccccc1', 'c:1ccccc:1',
+    # two-digit hydrogen counts and other over-long numeric fields (the SELFIES atom grammar has one H digit)
+    '[CH10-2]', '[SiH12]', '[UH10]C', '[CH11]', '[PbH10+2]', '[CH10]', '[ZrH12]C', '[C@H10]', '[13CH10]', '[CH1][CH01]',
+    '[CH00]', '[C+01]', '[0C]', '[00C]', '[C-00]',
     # multivalent halogens (allowed by the hypervalent / relaxed table) at the head of a branch, inside chains and rings
     'c1ccc(Cl(=O)(=O)=O)cc1', 'CC(Cl(=O)=O)C', 'C(Br(F)(F)F)C', 'OC(Cl=O)C', 'C1CC(Cl1)C', 'C1CC(Br1)C', 'CC(I(C)C)C',
     'C(Cl(C)C)(Br(C)C)C', 'CCl(C)C', 'C(ClC)C', 'C(BrCC)C', 'C(IC)C', 'C(Cl=O)F', 'FC(Cl(F)F)Br(F)F', 'C(Cl)(Br(=O)=O)C',
